@@ -42,5 +42,6 @@ seeded/C16b/patch.diff C16
 seeded/C19a/patch.diff C19
 seeded/C19b/patch.diff C19
 seeded/C20a/patch.diff C20
+seeded/C20b/patch.diff C20
 LIST
 exit $rc
